@@ -141,6 +141,9 @@ func cmdVerify(args []string) {
 		if u.Vacuous != "" {
 			fmt.Println("    VACUOUS: contradictory assumptions at the return (", u.Vacuous, ")")
 		}
+		for _, d := range u.DeadRets {
+			fmt.Println("    UNREACHABLE RETURN:", d)
+		}
 		for _, o := range u.Obs {
 			if !filter(o) {
 				continue
